@@ -228,6 +228,13 @@ def run_unit(u, repo, tier, seed, relock=False):
             lock = sorted(funcs)
     # the per-function breakdown does not cover side queries (by(bit_vector), by(nonlinear_arith), by(compute)):
     # an error diagnostic located inside a function makes that function's obligation fail as well
+    # verus names fns of impls on foreign types `impl&%N::f`; alias our `Type::f` to it when unambiguous
+    for q in list(by.keys()):
+        if q is not None and q not in funcs:
+            short = q.split("::")[-1]
+            cands = [k for k in funcs if k.startswith("impl&%") and k.endswith("::" + short)]
+            if len(cands) == 1:
+                by.setdefault(cands[0], []).extend(by.pop(q))
     for q, ds in by.items():
         if q is not None and any(d["level"] == "error" for d in ds):
             if q in funcs:
